@@ -245,7 +245,8 @@ class GeoBoxBase:
         assert self.crs is not None
         ext = self.extent
         if buffer != 0:
-            buffer = buffer * max(*self.resolution.xy)
+            # pixel size, resolution is negative along mirrored axes
+            buffer = buffer * max(map(abs, self.resolution.xy))
             ext = ext.buffer(buffer)
 
         return ext.to_crs(crs, resolution=self._reproject_resolution(npoints)).dropna()
